@@ -1002,6 +1002,7 @@ def prim_cases(prop: str, rng: random.Random, n: int, res: Result) -> list[Failu
                                    UpdateNodeSeg, UpdateTrackIDs)
     fails: list[Failure] = []
     seen: set = set()
+    prim_jobs: list = []   # (spec, description, model lines, real states) for the correspondence
     for _ in range(n):
         spec = G.gen_case(rng, with_ids=True)
         try:
@@ -1016,6 +1017,11 @@ def prim_cases(prop: str, rng: random.Random, n: int, res: Result) -> list[Failu
         kind = rng.choice(["AddNode", "DeleteNode", "AddEdge", "DeleteEdge", "UpdateNodeAttrs",
                            "UpdateNodeSeg", "UpdateTrackIDs"])
         desc: dict[str, Any] = {"prim": kind}
+        try:
+            init_line = "SP" + case.init_line(t)[1:]
+        except Exception:
+            init_line = None
+        mline: str | None = None   # the same primitive in the model's line protocol (family SP)
         try:
             if kind == "AddNode":
                 nid = G.fresh_node_id(rng, t)
@@ -1037,6 +1043,18 @@ def prim_cases(prop: str, rng: random.Random, n: int, res: Result) -> list[Failu
                 if rng.random() < 0.5:
                     attrs["score"] = rng.randrange(100)
                 desc.update(node=nid, attrs={k: (v if not isinstance(v, list) else list(v)) for k, v in attrs.items()})
+                other: dict[int, Any] = {}
+                if case.cfg == "axes":
+                    for pk, a in zip(case.pos_keys, F.axis_names(case.ndim)):
+                        other[pk] = int(attrs[a])
+                elif case.cfg == "pos":
+                    for pk in case.pos_keys:
+                        other[pk] = int(attrs["pos"][0])
+                if "score" in attrs:
+                    other[F.K_SCORE] = attrs["score"]
+                pxs = "-" if px is None else f"{len(desc['pixels'])} " + " ".join(map(str, desc["pixels"]))
+                mline = (f"SP addnode {nid} {time_} {attrs['track_id']} {attrs['lineage_id']} "
+                         + " ".join(case.enc_attrs(other)) + f" {pxs}")
                 make = lambda: AddNode(t, nid, attrs, pixels=px)  # noqa: E731
             elif kind == "DeleteNode":
                 iso = [n for n in nodes if g.degree(n) == 0]
@@ -1044,6 +1062,7 @@ def prim_cases(prop: str, rng: random.Random, n: int, res: Result) -> list[Failu
                     continue
                 n_ = rng.choice(iso)
                 desc["node"] = n_
+                mline = f"SP delnode {n_} -"
                 make = lambda: DeleteNode(t, n_)  # noqa: E731
             elif kind == "AddEdge":
                 pairs = [(u, v) for u in nodes for v in nodes if u != v and not g.has_edge(u, v)]
@@ -1051,12 +1070,14 @@ def prim_cases(prop: str, rng: random.Random, n: int, res: Result) -> list[Failu
                     continue
                 e = rng.choice(pairs)
                 desc["edge"] = e
+                mline = f"SP addedge {e[0]} {e[1]} 0"
                 make = lambda: AddEdge(t, e)  # noqa: E731
             elif kind == "DeleteEdge":
                 if not g.edges:
                     continue
                 e = rng.choice(list(g.edges))
                 desc["edge"] = e
+                mline = f"SP deledge {e[0]} {e[1]}"
                 make = lambda: DeleteEdge(t, e)  # noqa: E731
             elif kind == "UpdateNodeAttrs":
                 if not nodes:
@@ -1064,6 +1085,7 @@ def prim_cases(prop: str, rng: random.Random, n: int, res: Result) -> list[Failu
                 n_ = rng.choice(nodes)
                 at = {"score": rng.randrange(100)}
                 desc.update(node=n_, attrs=at)
+                mline = f"SP updattrs {n_} " + " ".join(case.enc_attrs({F.K_SCORE: at["score"]}))
                 make = lambda: UpdateNodeAttrs(t, n_, at)  # noqa: E731
             elif kind == "UpdateNodeSeg":
                 if case.cfg != "seg" or not nodes:
@@ -1081,6 +1103,7 @@ def prim_cases(prop: str, rng: random.Random, n: int, res: Result) -> list[Failu
                     pl = rng.sample(own, rng.randint(1, len(own)))
                 desc.update(node=n_, pixels=pl, added=added)
                 px2 = case.idx_tuple(pl)
+                mline = f"SP updseg {n_} {len(pl)} " + " ".join(map(str, pl)) + f" {int(added)}"
                 make = lambda: UpdateNodeSeg(t, n_, px2, added=added)  # noqa: E731
             else:  # UpdateTrackIDs: the new id must not be found downstream
                 if not nodes:
@@ -1092,17 +1115,24 @@ def prim_cases(prop: str, rng: random.Random, n: int, res: Result) -> list[Failu
                 new = rng.choice(cand)
                 lin = rng.choice([None, rng.randrange(1, 45)])
                 desc.update(start=n_, tid=new, lin=lin)
+                mline = f"SP updtid {n_} {new} {-1 if lin is None else lin}"
                 make = lambda: UpdateTrackIDs(t, n_, new, lin)  # noqa: E731
             a0 = observe(t)
+            st0 = ses.state()
             act = make()
             b0 = observe(t)
+            st1 = ses.state()
             inv = act.inverse()
             a1 = observe(t)
+            st2 = ses.state()
             inv.inverse()
             b1 = observe(t)
+            st3 = ses.state()
         except Exception as e:
             res.count(f"prim:{kind}:raised:{type(e).__name__}")
             continue
+        if init_line is not None and mline is not None:
+            prim_jobs.append((spec, desc, [init_line, mline, "SP inv", "SP inv"], [st0, st1, st2, st3]))
         res.evaluations += 1
         res.count(f"prim:{kind}")
         res.nontrivial.add(h([spec["nodes"], spec["edges"], desc]))
@@ -1118,6 +1148,45 @@ def prim_cases(prop: str, rng: random.Random, n: int, res: Result) -> list[Failu
                 seen.add(sig)
                 fails.append(Failure("oracle", prop, sig, f"{desc}: inverse().inverse() leaves " + obs_diff(b0, b1),
                                      {"spec": spec, "primitive": desc}))
+    fails += prim_correspondence(prop, prim_jobs, res)
+    return fails
+
+
+def prim_correspondence(prop: str, jobs: list, res: Result) -> list[Failure]:
+    """primitive action, inverse(), inverse().inverse(): the model's `pX` / `invPrim` against the
+    real constructors, whole canonical state after each of the three calls"""
+    fails: list[Failure] = []
+    if not jobs:
+        return fails
+    lines = [l for _, _, ls, _ in jobs for l in ls]
+    try:
+        out = Driver().run(lines)
+    except Exception as e:
+        res.notes.append(f"primitive correspondence: driver failed: {e}")
+        return [Failure("divergence", prop, f"{prop}|prim|driver-unavailable", str(e)[:200], {})]
+    pos = 0
+    seen: set = set()
+    for spec, desc, ls, states in jobs:
+        seg = out[pos:pos + len(ls)]
+        pos += len(ls)
+        case = F.Case(spec)
+        for i, (line, st) in enumerate(zip(seg, states)):
+            head, mstate = F.parse_model_line(line)
+            what = ["construction", desc["prim"], "inverse()", "inverse().inverse()"][i]
+            if mstate is None or (i > 0 and head != "ok"):
+                diffs = [("outcome", f"model answered {head!r} to {ls[i]!r}; the real call succeeded")]
+            else:
+                diffs = F.compare(case, mstate, st)
+            res.compared_steps += 1
+            if diffs:
+                sig = f"{prop}|prim-model-vs-code|{desc['prim']}|{what}"
+                if sig not in seen:
+                    seen.add(sig)
+                    fails.append(Failure("divergence", prop, sig,
+                                         f"primitive {desc} ({what}): " + "; ".join(d for _, d in diffs[:3]),
+                                         {"spec": spec, "primitive": desc, "model_lines": ls[1:], "step": i}))
+                break
+    res.count("prim-correspondence:cases", len(jobs))
     return fails
 
 
@@ -1131,31 +1200,37 @@ def plain_tracks_cases(prop: str, rng: random.Random, n: int, res: Result) -> li
     from funtracks.data_model import Tracks
     fails: list[Failure] = []
     seen: set = set()
+    jobs: list = []   # correspondence with the model's primitive protocol (family SP)
     for _ in range(n):
         spec = G.gen_case(rng, cfg="seg", with_ids=False)
         spec.pop("prebuilt", None)
         if spec.get("id_base"):
             continue
+        for x in spec["nodes"]:
+            x.pop("score", None)
+        for e in spec["edges"]:
+            e.pop("w", None)
+        # extra parents: merges, preferably with a second parent in the frame of the first
+        tm = {x["id"]: x["time"] for x in spec["nodes"]}
+        have = {(e["u"], e["v"]) for e in spec["edges"]}
+        extra = []
+        for v in list(tm):
+            if rng.random() < 0.45:
+                cands = [u for u in tm if tm[u] < tm[v] and (u, v) not in have]
+                par = [u for (u, w) in have if w == v]
+                same = [u for u in cands if par and tm[u] == tm[par[0]]]
+                if same and rng.random() < 0.7:
+                    cands = same
+                if cands:
+                    u = rng.choice(cands)
+                    have.add((u, v))
+                    spec["edges"].append({"u": u, "v": v})
+                    extra.append([u, v])
         case = F.Case(spec)
         g = nx.DiGraph()
         for x in spec["nodes"]:
             g.add_node(x["id"], time=x["time"])
         g.add_edges_from((e["u"], e["v"]) for e in spec["edges"])
-        # extra parents: merges, preferably with a second parent in the frame of the first
-        nodes = list(g.nodes)
-        extra = []
-        for v in nodes:
-            if rng.random() < 0.45:
-                tv = g.nodes[v]["time"]
-                cands = [u for u in nodes if g.nodes[u]["time"] < tv and not g.has_edge(u, v)]
-                par = [u for u in g.predecessors(v)]
-                same = [u for u in cands if par and g.nodes[u]["time"] == g.nodes[par[0]]["time"]]
-                if same and rng.random() < 0.7:
-                    cands = same
-                if cands:
-                    u = rng.choice(cands)
-                    g.add_edge(u, v)
-                    extra.append([u, v])
         seg = np.array(spec["seg"], dtype=np.dtype(spec.get("seg_dtype", "int64"))).reshape(case.shape)
         desc: dict[str, Any] = {"plain_tracks": {k: spec[k] for k in ("ndim", "shape", "seg", "scale", "seg_dtype", "nodes", "edges")},
                                 "merge_edges": extra, "steps": []}
@@ -1167,18 +1242,24 @@ def plain_tracks_cases(prop: str, rng: random.Random, n: int, res: Result) -> li
             if feats:
                 t.enable_features(feats)
             desc["enabled"] = feats
+            init_line = "SP" + case.init_line(t, plain=True)[1:]
         except Exception as e:
             res.count(f"plain:construct-raised:{type(e).__name__}")
             continue
         T = case.shape[0]
         last = None
+        mlines: list[str] = [init_line]
+        mstates: list[dict] = [F.impl_state(case, t, 0, None, plain=True)]
 
         def probs():
             return iou_problems(case, t) if prop == "C09" else rp_problems(case, t)
 
+        def did(line: str):
+            mlines.append(line)
+            mstates.append(F.impl_state(case, t, 0, None, plain=True))
+
         steps = ["check"] + [rng.choice(["addedge", "addedge", "deledge", "grow", "shrink", "inverse", "off-on", "off-edit-on",
                                          "addnode", "delnode"]) for _ in range(rng.randint(3, 8))]
-        stale = False
         for st in steps:
             gg = t.graph
             ns = list(gg.nodes)
@@ -1191,19 +1272,21 @@ def plain_tracks_cases(prop: str, rng: random.Random, n: int, res: Result) -> li
                     e = rng.choice(pairs)
                     what = ["addedge", list(e)]
                     last = AddEdge(t, e)
+                    did(f"SP addedge {e[0]} {e[1]} 0")
                 elif st == "deledge":
                     if not gg.edges:
                         continue
                     e = rng.choice(list(gg.edges))
                     what = ["deledge", list(e)]
                     last = DeleteEdge(t, e)
+                    did(f"SP deledge {e[0]} {e[1]}")
                 elif st in ("grow", "shrink"):
                     if not ns:
                         continue
                     x = rng.choice(ns)
-                    tm = gg.nodes[x]["time"]
+                    tmx = gg.nodes[x]["time"]
                     if st == "grow":
-                        free = G.free_pixels(case, t, tm)
+                        free = G.free_pixels(case, t, tmx)
                         if not free:
                             continue
                         pl = rng.sample(free, rng.randint(1, min(3, len(free))))
@@ -1214,13 +1297,17 @@ def plain_tracks_cases(prop: str, rng: random.Random, n: int, res: Result) -> li
                         pl = rng.sample(own, rng.randint(1, len(own) - 1))
                     what = [st, x, pl]
                     last = UpdateNodeSeg(t, x, case.idx_tuple(pl), added=(st == "grow"))
+                    did(f"SP updseg {x} {len(pl)} " + " ".join(map(str, pl)) + f" {int(st == 'grow')}")
                 elif st == "inverse":
                     if last is None:
                         continue
                     last = last.inverse()
+                    did("SP inv")
                 elif st in ("off-on", "off-edit-on"):
                     keys = ["iou"] if prop == "C09" else ["area"]
+                    kk = F.K_IOU if prop == "C09" else F.K_AREA
                     t.disable_features(keys)
+                    did(f"SP disable 1 {kk}")
                     if st == "off-edit-on" and ns:
                         # an edit while the feature is off: its stored values go stale and the bulk
                         # computation has to overwrite every one of them
@@ -1240,18 +1327,21 @@ def plain_tracks_cases(prop: str, rng: random.Random, n: int, res: Result) -> li
                             pl = rng.sample(own, rng.randint(1, len(own) - 1))
                         if pl is not None:
                             UpdateNodeSeg(t, x, case.idx_tuple(pl), added=False)
+                            did(f"SP updseg {x} {len(pl)} " + " ".join(map(str, pl)) + " 0")
                             what = [st, x, pl]
                     t.enable_features(keys)
+                    did(f"SP enable 1 {kk} 1")
                     last = None
                 elif st == "addnode":
-                    tm = rng.randrange(T)
-                    free = G.free_pixels(case, t, tm)
+                    tmx = rng.randrange(T)
+                    free = G.free_pixels(case, t, tmx)
                     if not free:
                         continue
                     nid = G.fresh_node_id(rng, t)
                     pl = rng.sample(free, rng.randint(1, min(3, len(free))))
-                    what = ["addnode", nid, tm, pl]
-                    last = AddNode(t, nid, {"time": tm, "track_id": 1}, pixels=case.idx_tuple(pl))
+                    what = ["addnode", nid, tmx, pl]
+                    last = AddNode(t, nid, {"time": tmx, "track_id": 1}, pixels=case.idx_tuple(pl))
+                    did(f"SP addnode {nid} {tmx} 1 -1 0 {len(pl)} " + " ".join(map(str, pl)))
                 elif st == "delnode":
                     iso = [x for x in ns if gg.degree(x) == 0]
                     if not iso:
@@ -1259,6 +1349,7 @@ def plain_tracks_cases(prop: str, rng: random.Random, n: int, res: Result) -> li
                     x = rng.choice(iso)
                     what = ["delnode", x]
                     DeleteNode(t, x)
+                    did(f"SP delnode {x} -")
                     last = None  # on plain Tracks the track id is not a registered feature: no inverse
             except Exception as e:
                 res.count(f"plain:{st}:raised:{type(e).__name__}")
@@ -1276,6 +1367,37 @@ def plain_tracks_cases(prop: str, rng: random.Random, n: int, res: Result) -> li
                     fails.append(Failure("oracle", prop, sig, f"plain Tracks, after {what}: {bad[0]}",
                                          {"plain_case": copy.deepcopy(desc)}))
                 break
+        if len(mlines) == len(mstates):
+            jobs.append((spec, desc, mlines, mstates))
+    # ---- the same primitive sequences through the model
+    if jobs:
+        try:
+            out = Driver().run([l for _, _, ls, _ in jobs for l in ls])
+        except Exception as e:
+            res.notes.append(f"plain-Tracks correspondence: driver failed: {e}")
+            out = None
+        pos = 0
+        dseen: set = set()
+        for spec, desc, ls, states in (jobs if out is not None else []):
+            seg_ = out[pos:pos + len(ls)]
+            pos += len(ls)
+            case = F.Case(spec)
+            for i, (line, st_) in enumerate(zip(seg_, states)):
+                head, mstate = F.parse_model_line(line)
+                if mstate is None or head != "ok":
+                    diffs = [("outcome", f"model answered {head!r} to {ls[i][:60]!r}; the real call succeeded")]
+                else:
+                    diffs = [d for d in F.compare(case, mstate, st_) if F.OWNER.get(d[0], "C01") in (prop, "C07", "C03")]
+                res.compared_steps += 1
+                if diffs:
+                    sig = f"{prop}|plain-model-vs-code|{ls[i].split()[1]}"
+                    if sig not in dseen:
+                        dseen.add(sig)
+                        fails.append(Failure("divergence", prop, sig,
+                                             f"plain Tracks, step {i} ({ls[i][:80]}): " + "; ".join(d for _, d in diffs[:3]),
+                                             {"plain_case": copy.deepcopy(desc), "model_lines": ls, "step": i}))
+                    break
+        res.count("plain-correspondence:cases", len(jobs))
     return fails
 
 
@@ -1357,7 +1479,7 @@ def compare_session(prop: str, spec: dict, init_line: str, ops, outs, states, mo
     for i, line in enumerate(model_out):
         head, mstate = F.parse_model_line(line)
         if mstate is None:
-            fails.append(Failure("divergence", prop, f"{prop}|model-rejects-op", f"model answered bad-op at step {i}",
+            fails.append(Failure("divergence", prop, f"{prop}|model-rejects-op", f"model answered {head} at step {i}",
                                  {"spec": spec, "ops": ops[:i], "step": i}))
             return fails
         if i == 0:
